@@ -449,6 +449,13 @@ func runC02Swarm(r *ev.Run) {
 			r.NonTrivial(fmt.Sprintf("swarm/replaying-wire/senders=%d/receivers=%d", cfg.senders, cfg.receivers))
 		}
 		if i == 0 {
+			// "authentic peer": after a handshake that was refused for answering with the wrong identity, nothing the refused
+			// peer sends may surface under another identity
+			for _, sf := range secureStacks(false) {
+				if sf.Name == "p2pke(mem)" && r.Want(caseID+"-wrong-identity") {
+					c04HonestAs(r, sf, g.Fork(), caseID+"-wrong-identity", "C02")
+				}
+			}
 			r.Sample(map[string]any{"family": "p2pkeswarm over a replaying transport", "delivered": d, "senders_per_node": cfg.senders, "receivers_per_node": cfg.receivers})
 		}
 	}
